@@ -170,7 +170,7 @@ FINDINGS = {'KF-C08-SPLIT': f_split, 'KF-C08-SIGKINDS': f_sigkinds, 'KF-C08-NONK
 
 
 def run(ctx):
-    n = 100 if ctx.quick else 800
+    n = 80 if ctx.quick else 800
     ctx.run_hypothesis(cases('core'), check, max_examples=n, label='core')
     for i, prof in enumerate(('sig-change', 'in-split', 'non-kern')):
         ctx.run_hypothesis(cases(prof), check, max_examples=max(30, n // 3), salt=i + 1, label=prof)
